@@ -33,6 +33,8 @@ func main() {
 		cmdCheck(os.Args[2:])
 	case "replay":
 		cmdReplay(os.Args[2:])
+	case "selftest":
+		cmdSelftest(os.Args[2:])
 	case "simbuild":
 		dir := os.Args[2]
 		os.MkdirAll(dir, 0o755)
@@ -232,4 +234,32 @@ func cmdReplay(args []string) {
 	default:
 		die(2, "unknown replay property %q", head.Property)
 	}
+}
+
+// cmdSelftest: determinism of both simulators (sensitivity lives in selftest.sh).
+func cmdSelftest(args []string) {
+	n := 30
+	self, _ := os.Executable()
+	rep := map[string]interface{}{}
+	g, ok1, err := gensim.Determinism(n)
+	if err != nil {
+		exitFor(err)
+	}
+	rep["gensim"] = g
+	c, ok2, err := convsim.Determinism(verifRoot, self, []string{"C05", "C06", "C08", "C09"}, n)
+	if err != nil {
+		exitFor(err)
+	}
+	rep["convsim"] = c
+	rep["processes_per_point"] = n
+	rep["gomaxprocs"] = []int{1, 4, 16}
+	b, _ := json.MarshalIndent(rep, "", " ")
+	os.MkdirAll(filepath.Join(outRoot, "evidence"), 0o755)
+	os.WriteFile(filepath.Join(outRoot, "evidence", "selftest-determinism.json"), b, 0o644)
+	fmt.Println(string(b))
+	if !ok1 || !ok2 {
+		fmt.Println("DETERMINISM SELF-TEST FAILED: the simulator is not a pure function of its seed")
+		os.Exit(2)
+	}
+	fmt.Println("determinism self-test ok")
 }
